@@ -1,16 +1,21 @@
 #!/usr/bin/env python3
 """Runs the property check of every kept seeded change (seeded/<id>/patch.diff applied to a scratch copy of /repo) and records which rules
-report it.  Writes seeded/RESULTS.md and updates meta.json (detected_by)."""
+report it.  Writes seeded/RESULTS.md and updates meta.json (detected_by).
+usage: run_seeds.py [<substring of id>] [--new-only] [-j N]      (--new-only: only seeds whose meta.json has no detected_by yet)"""
 import json, os, re, subprocess, sys
+from concurrent.futures import ThreadPoolExecutor
 VERIF = os.path.dirname(os.path.dirname(os.path.abspath(__file__)))
-rows = []
-for sid in sorted(os.listdir(os.path.join(VERIF, "seeded"))):
+args = [a for a in sys.argv[1:] if not a.startswith("-")]
+jobs = int(sys.argv[sys.argv.index("-j") + 1]) if "-j" in sys.argv else 1
+if "-j" in sys.argv:
+    args = [a for a in args if a != sys.argv[sys.argv.index("-j") + 1]]
+new_only = "--new-only" in sys.argv
+sel = args[0] if args else None
+
+
+def one(sid):
     d = os.path.join(VERIF, "seeded", sid)
     mp = os.path.join(d, "meta.json")
-    if not os.path.exists(mp):
-        continue
-    if len(sys.argv) > 1 and sys.argv[1] not in sid:
-        continue
     meta = json.load(open(mp))
     prop = meta["breaks_property"]
     r = subprocess.run([os.path.join(VERIF, "tools", "with_patch.sh"), os.path.join(d, "patch.diff"), os.path.join(VERIF, "bin", "xv"), "check", prop, "--no-evidence"],
@@ -19,8 +24,27 @@ for sid in sorted(os.listdir(os.path.join(VERIF, "seeded"))):
     meta["detected_by"] = rules
     meta["check_exit_code"] = r.returncode
     json.dump(meta, open(mp, "w"), indent=1)
-    rows.append((sid, prop, r.returncode, rules))
-    print(sid, prop, r.returncode, rules)
+    print(sid, prop, r.returncode, rules, flush=True)
+
+
+todo = []
+for sid in sorted(os.listdir(os.path.join(VERIF, "seeded"))):
+    mp = os.path.join(VERIF, "seeded", sid, "meta.json")
+    if not os.path.exists(mp):
+        continue
+    if sel and sel not in sid:
+        continue
+    if new_only and json.load(open(mp)).get("detected_by"):
+        continue
+    todo.append(sid)
+with ThreadPoolExecutor(max_workers=jobs) as ex:
+    list(ex.map(one, todo))
+rows = []
+for sid in sorted(os.listdir(os.path.join(VERIF, "seeded"))):
+    mp = os.path.join(VERIF, "seeded", sid, "meta.json")
+    if os.path.exists(mp):
+        m = json.load(open(mp))
+        rows.append((sid, m["breaks_property"], m.get("check_exit_code", -1), m.get("detected_by", [])))
 with open(os.path.join(VERIF, "seeded", "RESULTS.md"), "w") as fh:
     fh.write("# Seeded changes vs. checks\n\n| seed | property | check exit | reported by rule(s) |\n|---|---|---|---|\n")
     for sid, prop, rc, rules in rows:
